@@ -538,7 +538,7 @@ class Response(_SansIOResponse):
             or status in (204, 304)
         ):
             iterable: t.Iterable[bytes] = ()
-        elif self.direct_passthrough:
+        elif self.direct_passthrough and not self._on_close:
             return self.response  # type: ignore
         else:
             iterable = self.iter_encoded()
